@@ -360,7 +360,15 @@ def _c15():
         if inc:
             e["includes_first"] = inc
         b.append(e)
+    # the numerical kernels (rotation, uniform) on small trees: the only users of the periodic position shifter and of the
+    # kernels' own heap tables
+    b.append({"name": "num_asan_C04", "objects": [{"source": "drivers/num_driver.cpp", "flags": SAN + ["-fopenmp", "-DVF_C04", "-DVF_NUM_LIGHT"]}, sched_obj],
+              "link": SAN_LINK + ["-ldl", "-rdynamic"]})
+    b.append({"name": "num_asan_C05", "objects": [{"source": "drivers/num_driver.cpp", "flags": SAN + ["-fopenmp", "-DVF_C05", "-DVF_NUM_LIGHT", "-DTBF_USE_FFTW"]}, sched_obj],
+              "link": SAN_LINK + ["-ldl", "-rdynamic", "-lfftw3", "-lfftw3f"]})
     r = [
+        {"driver": "num_asan_C04", "args": ["--mode", "C04"], "slices": 16, "slice_subset": 16, "tag": "r"},
+        {"driver": "num_asan_C05", "args": ["--mode", "C05"], "slices": 16, "slice_subset": 16, "tag": "r"},
         {"driver": "tree_asan", "args": ["--mode", "C02"], "slices": 256, "slice_subset": 6, "tag": "c02"},
         {"driver": "tree_asan", "args": ["--mode", "C06"], "slices": 256, "slice_subset": 4, "tag": "c06"},
         {"driver": "tree_asan", "args": ["--mode", "C16"], "slices": 256, "slice_subset": 2, "tag": "c16"},
@@ -401,7 +409,7 @@ CHECKS["C15"] = {
     "env": {"VF_SCHED_LIGHT": "1", "ASAN_OPTIONS": "detect_stack_use_after_return=1:detect_leaks=1:abort_on_error=1:allocator_may_return_null=1",
             "UBSAN_OPTIONS": "print_stacktrace=1:halt_on_error=1"},
     "rule": "the drivers of C01/C02/C06/C08/C16 (tree), C12/C13/C17 (histories), C14 (memory blocks and views), C09/C10 (target/source, "
-            "periodic), C11 (index algebra) and the schedule explorer for the OpenMP, OpenMP target/source, Specx and StarPU executors "
+            "periodic), C11 (index algebra), C04/C05 (rotation and uniform kernels incl. their periodic and target/source runs, smallest order, heights <= 3) and the schedule explorer for the OpenMP, OpenMP target/source, Specx and StarPU executors "
             "(fast build) rebuilt with -fsanitize=address,undefined -fno-sanitize-recover=undefined, assertions on, "
             "detect_stack_use_after_return=1 and an explicit leak check at the end of every slice, each run on a fixed subset of its "
             "quick space (the slices with the lowest ordinals; the full quick spaces in the thorough tier). Oracle: any sanitizer "
